@@ -233,6 +233,8 @@ type plan struct {
 	chatter    string
 	chatterGap time.Duration
 	noFrames   bool
+	spam       string
+	spamGap    time.Duration
 }
 
 func (s *FakeServer) handle(nc net.Conn, st *fakeConnState, req *base.Request, write func([]byte) error) bool {
@@ -368,6 +370,33 @@ func (s *FakeServer) handle(nc net.Conn, st *fakeConnState, req *base.Request, w
 	}
 	if req.Method == base.Play && p.status == 200 && !p.noFrames {
 		s.sendMedia(st, write)
+	}
+	if p.spam != "" {
+		kind, gap := p.spam, p.spamGap
+		if gap < 50*time.Microsecond {
+			gap = 50 * time.Microsecond
+		}
+		s.wg.Add(1)
+		go func() {
+			defer s.wg.Done()
+			for n := 0; n < 200000; n++ {
+				var b []byte
+				switch kind {
+				case "frame":
+					ch := 0
+					if len(st.channels) > 0 {
+						ch = st.channels[0]
+					}
+					pk := rtpBytes(96, uint16(n), 0x3000)
+					b = append([]byte{0x24, byte(ch), byte(len(pk) >> 8), byte(len(pk))}, pk...)
+				default:
+					b = []byte(fmt.Sprintf("OPTIONS rtsp://127.0.0.1/ RTSP/1.0\r\nCSeq: %d\r\n\r\n", 100000+n))
+				}
+				if write(b) != nil || !s.sleep(gap) {
+					return
+				}
+			}
+		}()
 	}
 	return true
 }
@@ -706,6 +735,9 @@ func (s *FakeServer) applyRule(p *plan, r SrvRule, st *fakeConnState, req *base.
 		}
 	case "no-frames":
 		p.noFrames = true
+	case "spam": // after answering, keep sending unsolicited messages every N microseconds until the connection ends
+		p.spam = r.S
+		p.spamGap = time.Duration(r.N) * time.Microsecond
 	}
 }
 
